@@ -43,7 +43,7 @@ def log(*a):
 
 
 def workdir(pid, fresh=True):
-    d = os.path.join(WORK, pid)
+    d = os.path.join(WORK, ("covrun_" if COV else "") + pid)      # coverage-mode runs do not share a directory with ordinary runs
     if fresh and os.path.isdir(d):
         shutil.rmtree(d, ignore_errors=True)
     os.makedirs(d, exist_ok=True)
